@@ -696,7 +696,18 @@ func (c07) Gen(rng *rand.Rand, tier string, idx int) Case {
 	}
 	stat["mode:"+mode] = true
 
-	c.Cfg = append(c.Cfg, []string{"sql", hx(q.sql())}, []string{"mode", mode}, []string{"gcol", hx("d")})
+	sqlText := q.sql()
+	if mode != "e2e" && q.limit > 0 && rng.Intn(3) == 0 {
+		// the cap given programmatically: the statement carries no LIMIT, types.Config.Limit is set on the parsed
+		// configuration (HasLimit stays false — the field exists only to tell LIMIT 0 from no LIMIT)
+		lim := q.limit
+		q.limit = -1
+		sqlText = q.sql()
+		q.limit = lim
+		c.Cfg = append(c.Cfg, []string{"proglimit", strconv.Itoa(lim)})
+		stat["limit-set-on-config"] = true
+	}
+	c.Cfg = append(c.Cfg, []string{"sql", hx(sqlText)}, []string{"mode", mode}, []string{"gcol", hx("d")})
 	cols := []string{"cols"}
 	for _, cn := range c07Cols {
 		cols = append(cols, hx(cn))
@@ -915,6 +926,9 @@ func (c07) Exec(c Case) [][][]string {
 			return fail("parse: " + err.Error())
 		}
 		cfg.Logger = logger.NewDiscardLogger()
+		if pl := c07CfgVal(c, "proglimit"); pl != "" {
+			cfg.Limit, _ = strconv.Atoi(pl)
+		}
 		if mode == "win" {
 			cfg.WindowConfig.GroupByKeys = nil // one count window over all groups
 		}
